@@ -266,6 +266,108 @@ impl Visitor for Cuts<'_> {
     }
 }
 
+/// mutations of the bare encoding, loaded under catch_unwind. Reports counts and the first few unexpected outcomes:
+/// panics that are not allocation failures, and loaded values whose own encoding is longer than the input consumed.
+struct Mut {
+    budget: usize,
+}
+fn mutations(bytes: &[u8], budget: usize) -> Vec<Vec<u8>> {
+    let mut out = Vec::new();
+    let n = bytes.len();
+    let stride = std::cmp::max(1, n / 150);
+    let mut i = 0;
+    while i < n {
+        for v in [0u8, 1, 2, 0x7f, 0x80, 0xff, bytes[i] ^ 1, bytes[i].wrapping_add(1)] {
+            if v != bytes[i] {
+                let mut m = bytes.to_vec();
+                m[i] = v;
+                out.push(m);
+            }
+        }
+        i += stride;
+    }
+    let mut off = 0;
+    while off + 8 <= n && off < 96 {
+        for l in [0u64, 1, 2, 3, 255, 256, 65535, 65536, 1 << 20, (1 << 32) + 1, (1 << 62) + 1, u64::MAX, n as u64, n as u64 + 1] {
+            let mut m = bytes.to_vec();
+            m[off..off + 8].copy_from_slice(&l.to_le_bytes());
+            out.push(m);
+        }
+        off += 1;
+    }
+    for k in 0..n.min(64) {
+        out.push(bytes[..k].to_vec());
+    }
+    let mut x: u64 = 0x9E3779B97F4A7C15 ^ (n as u64);
+    for _ in 0..64 {
+        let mut m = bytes.to_vec();
+        for _ in 0..3 {
+            x = x.wrapping_mul(6364136223846793005).wrapping_add(1442695040888963407);
+            if !m.is_empty() {
+                let pos = (x >> 33) as usize % m.len();
+                m[pos] = (x >> 17) as u8;
+            }
+        }
+        out.push(m);
+    }
+    out.truncate(budget);
+    out
+}
+impl Visitor for Mut {
+    fn visit<T: Serialize + Deserialize + WithSchema>(&mut self, make: &dyn Fn() -> T, _eq: &dyn Fn(&T, &T) -> bool, _dbg: &dyn Fn(&T) -> String) -> String {
+        let bytes = match save_container("bare", 0, &make()) {
+            Ok(b) => b,
+            Err(e) => return format!("SAVE-ERR {}", err_class(&e)),
+        };
+        let (mut ok, mut err, mut oom) = (0, 0, 0);
+        let (mut panics, mut grows) = (Vec::new(), Vec::new());
+        for m in mutations(&bytes, self.budget) {
+            let r = std::panic::catch_unwind(std::panic::AssertUnwindSafe(|| load_container::<T>("bare", 0, &m)));
+            match r {
+                Ok(Ok((y, used))) => {
+                    ok += 1;
+                    let again = std::panic::catch_unwind(std::panic::AssertUnwindSafe(|| save_container("bare", 0, &y)));
+                    if let Ok(Ok(b2)) = again {
+                        if b2.len() > used.unwrap_or(m.len()) && grows.len() < 3 {
+                            grows.push(format!("{}>{}:{}", b2.len(), used.unwrap_or(m.len()), hex(&m[..m.len().min(120)])));
+                        }
+                    }
+                }
+                Ok(Err(_)) => err += 1,
+                Err(p) => {
+                    let c = panic_class(&p);
+                    if c.contains("allocat") || c.contains("capacity_overflow") {
+                        oom += 1;
+                    } else if panics.len() < 3 {
+                        panics.push(format!("{}:{}", c.chars().take(80).collect::<String>(), hex(&m[..m.len().min(120)])));
+                    }
+                }
+            }
+        }
+        format!("{} {} {} | {} | {}", ok, err, oom, panics.join(";"), grows.join(";"))
+    }
+}
+
+/// one crafted input: OK <consumed> <length of the loaded value's own encoding> | ERR <class>
+struct Load<'a> {
+    bytes: &'a [u8],
+}
+impl Visitor for Load<'_> {
+    fn visit<T: Serialize + Deserialize + WithSchema>(&mut self, _make: &dyn Fn() -> T, _eq: &dyn Fn(&T, &T) -> bool, _dbg: &dyn Fn(&T) -> String) -> String {
+        match load_container::<T>("bare", 0, self.bytes) {
+            Ok((y, used)) => {
+                let again = std::panic::catch_unwind(std::panic::AssertUnwindSafe(|| save_container("bare", 0, &y)));
+                match again {
+                    Ok(Ok(b2)) => format!("OK {} {}", used.unwrap_or(self.bytes.len()), b2.len()),
+                    Ok(Err(e)) => format!("OK {} RESAVE-ERR-{}", used.unwrap_or(self.bytes.len()), err_class(&e)),
+                    Err(_) => format!("OK {} RESAVE-PANIC", used.unwrap_or(self.bytes.len())),
+                }
+            }
+            Err(e) => format!("ERR {}", err_class(&e)),
+        }
+    }
+}
+
 struct Det;
 impl Visitor for Det {
     fn visit<T: Serialize + Deserialize + WithSchema>(&mut self, make: &dyn Fn() -> T, _eq: &dyn Fn(&T, &T) -> bool, _dbg: &dyn Fn(&T) -> String) -> String {
@@ -296,6 +398,10 @@ pub fn dispatch(op: &str, toks: &[&str]) -> Option<String> {
         // lib_cuts <name> <container> <step>
         "lib_cuts" => with_case(toks[0], &mut Cuts { container: toks[1], step: toks[2].parse().unwrap() }),
         "lib_det" => with_case(toks[0], &mut Det),
+        // lib_load <name> <hex>
+        "lib_load" => with_case(toks[0], &mut Load { bytes: &unhex(toks[1]) }),
+        // lib_mut <name> <budget>
+        "lib_mut" => with_case(toks[0], &mut Mut { budget: toks[1].parse().unwrap() }),
         _ => return None,
     })
 }
